@@ -26,6 +26,13 @@ K6 account from a mnemonic: receiving/change addresses ordered by n equal the re
    ledger database: each chain stays the reference prefix of its own account after every generation /
    payment / top-up of any account, and the ledger's key lookup by address finds the controlling key.
    A passphrase in another Unicode-equivalent spelling (NFC/NFD/NFKC/NFKD) stretches to the same seed.
+   The gap settings are part of what the wallet SAVES: after every step of a history of account_set / payments to
+   generated addresses / wallet export + sync apply (older, equally old and newer copies, clear text and packed) /
+   start-up (Ledger.start's save_max_gap), the wallet text written by Wallet.save(), loaded on a fresh database and
+   run through the usual discovery loop, regenerates hole-free reference chains that contain EVERY address the
+   harness paid to - whenever the last explicit settings (account_set here or on the newer device) sufficed for
+   those payments or a start-up came since (otherwise logged).  Which addresses were paid to, which copy is older
+   and which gaps suffice is the harness' own bookkeeping.
 K7 mnemonic_decode(mnemonic_encode(i)) == i for i in 1..2^264, dense around 2048^k.
 """
 import asyncio
@@ -44,7 +51,11 @@ RULE = ('paths: seeds of 16..64 bytes (length classes 16,17,31,32,33,48,63,64,ra
         '0/1/2/5/all leading zero bytes and substitutions/deletions/insertions/swaps/non-alphabet characters; addresses: '
         'random/zero/ff hash160 on three networks and their corruptions; accounts: random 12..13-word English mnemonics and '
         'arbitrary strings x gaps {1,3,20}x{1,3,6,20}, default gaps and single-address; 2-3 such accounts (also watch-only) '
-        'in one ledger database x generation order x payments to any chain of any account; passphrases with accents / '
+        'in one ledger database x generation order x payments to any chain of any account; saved gap settings: 8 scripted and '
+        'seeded random histories of 5-9 steps over {account_set raising/lowering either gap, payment to a generated address '
+        '(last / gap-th last / random), wallet export (JSON or packed), sync apply of an exported copy as it is or after a '
+        'second device changed its gaps earlier / later than the local change, start-up} x gaps from {1..8} or {20..45}x{6..30}, '
+        'each step followed by a restore of the saved wallet text on a fresh database; passphrases with accents / '
         'compatibility characters in the four Unicode normal forms; mnemonic: every i in dense '
         'windows around 2048^k (k<=24) and random i up to 2^264.  distinct = distinct (seed, path prefix) node / payload / '
         'address / (mnemonic, gaps) / integer; non-trivial = every case (each is an independent input of a deterministic '
@@ -58,6 +69,11 @@ ASSUMPTIONS = [
     'unicodedata.normalize (standard library) is trusted to produce canonically / compatibility-equivalent spellings of '
     'a passphrase; only their agreement with each other is judged (no normal form is prescribed); upper-case and '
     'white-space variants of a passphrase are logged, not judged',
+    'saved gap settings: a restored wallet discovers its addresses as Ledger.subscribe_account does (ensure_address_gap, '
+    'histories of the new addresses arrive, ensure_address_gap again until nothing new is generated); a gap suffices for a '
+    'set of paid indices when every run of never-paid indices in front of a paid one is shorter than the gap; a sync copy '
+    'is newer only when its modified_on is greater; gaps lowered by the user or by a newer copy below what the payments '
+    'need are the user\'s choice (logged, judged again after the next start-up)',
     'network constants written down from the LBRY chain parameters: main 0x55/0x7a xpub/xprv, test+regtest 111/196 tpub/tprv',
     'a child with parse256(IL) >= n or k_i = 0 (probability 2^-127) is skipped, never judged',
     'rejection = any exception or a False verdict; exception types other than Base58Error/ValueError are logged',
@@ -77,6 +93,10 @@ REQUIRED_HITS = [
     'K6.private_key_checked', 'K6.seed_stretch_checked', 'K6.respelled_mnemonic_checked', 'K6.fixture_checked',
     'K6.shared_ledger_checked', 'K6.shared.step_checked', 'K6.shared.after_use_checked', 'K6.shared.key_lookup_checked',
     'K6.passphrase_equivalent_checked', 'K6.password_account_root_checked',
+    'K6.saved.history_checked', 'K6.saved.restore_checked', 'K6.saved.funded_regenerated_checked',
+    'K6.saved.after.sync-apply-of-older-copy', 'K6.saved.after.sync-apply-of-newer-copy', 'K6.saved.after.start-up',
+    'K6.saved.after.account-set', 'K6.saved.after.payment', 'K6.saved.older_copy_too_narrow_checked',
+    'K6.saved.startup_beyond_default_gap.receiving', 'K6.saved.startup_beyond_default_gap.change',
     'K7.roundtrip_checked', 'K7.boundary_checked',
 ]
 
@@ -179,6 +199,9 @@ def gen_cases(rng, tier, shard, nshards):
     top = 10_000 if quick else 300_000
     for lo in range(1, top, step):
         fixed.append({'fam': 'mnem_range', 'lo': lo, 'hi': lo + step - 1})
+    for name in sorted(SAVED_SCRIPTS):      # gap settings the wallet saves (appended last: keeps the draws of `fr` above)
+        fixed.append({'fam': 'saved', 'script': name, 'mseed': fr.getrandbits(48), 'kind': 'words',
+                      'net': 'regtest' if name.endswith('packed') else 'main'})
     for i, c in enumerate(fixed):
         if i % nshards == shard:
             yield c
@@ -204,6 +227,10 @@ def gen_cases(rng, tier, shard, nshards):
                              rng.choice([[gap(), gap()]] * 5 + [[None, None]])
                              for _ in range(rng.choice([2, 2, 2, 3]))],
                    'uses': rng.randrange(1, 4)}
+        if rnd % 4 == 2:
+            yield {'fam': 'saved', 'script': 'random', 'mseed': rng.getrandbits(48), 'kind': rng.choice(['words', 'words', 'string']),
+                   'net': rng.choice(['main', 'main', 'regtest']), 'palette': rng.choice(['small', 'small', 'large']),
+                   'steps': rng.randrange(5, 10)}
 
 
 # ------------------------------------------------------------------------------ helpers
@@ -1184,6 +1211,361 @@ def check_shared_ledger(rec, case):
             return
 
 
+# ------------------------------------------------------------------------------ K6: the gap settings the wallet saves
+SYNC_PASSWORD = 'sync password'
+DEFAULT_GAPS = [20, 6]          # documented defaults of the deterministic chain
+# scripted histories [initial gaps (None = defaults), steps]; steps: ['set', [receiving gap, change gap]] account_set,
+# ['pay', chain, n] payment to a generated address, ['publish', 'json'|'packed'] wallet export kept by the sync server,
+# ['apply', copy, None] sync apply of that copy as exported, ['apply', copy, ['later'|'earlier', gaps]] after a second device
+# loaded the copy and changed its gaps later / earlier than the last local change, ['restart'] what Ledger.start does
+SAVED_SCRIPTS = {
+    'older-copy': [None, [['publish', 'json'], ['set', [40, 6]], ['pay', 0, 30], ['apply', 0, None], ['restart'], ['pay', 0, 60],
+                          ['apply', 0, None]]],
+    'older-copy-packed': [[3, 2], [['publish', 'packed'], ['set', [8, 2]], ['pay', 0, 6], ['publish', 'json'], ['set', [8, 5]],
+                                   ['pay', 1, 4], ['apply', 0, None], ['apply', 1, None], ['restart']]],
+    'startup-receiving': [None, [['set', [40, 6]], ['pay', 0, 30], ['restart'], ['pay', 1, 2], ['restart']]],
+    'startup-change': [None, [['set', [20, 30]], ['pay', 1, 25], ['restart'], ['pay', 0, 3], ['restart']]],
+    'lowered-then-startup': [None, [['set', [40, 6]], ['pay', 0, 30], ['set', [20, 6]], ['restart']]],
+    'newer-copy': [[3, 3], [['publish', 'json'], ['apply', 0, ['later', [6, 4]]], ['pay', 0, 5], ['publish', 'packed'],
+                            ['apply', 0, None], ['apply', 1, ['earlier', [2, 2]]], ['restart']]],
+    'newer-narrower-copy-then-startup': [None, [['set', [30, 6]], ['pay', 0, 25], ['publish', 'json'],
+                                                ['apply', 0, ['later', [20, 6]]], ['restart']]],
+    'both-chains': [None, [['set', [45, 12]], ['pay', 0, 33], ['pay', 1, 9], ['pay', 0, 2], ['publish', 'packed'], ['restart'],
+                           ['apply', 0, None], ['pay', 0, 70], ['restart']]],
+}
+
+
+def gap_needed(paid):
+    """smallest gap with which gap-limited discovery from index 0 reaches every paid index (harness arithmetic)"""
+    need, prev = 0, -1
+    for j in sorted(paid):
+        need, prev = max(need, j - prev), j
+    return need
+
+
+def saved_plan(case):
+    """(initial gaps, operations); every operation carries what the harness' own bookkeeping says afterwards: the local
+    modified_on, the indices paid so far, a lower bound of the generated chain lengths, the gaps explicitly in force (None
+    after a start-up chose them) and whether the saved settings are REQUIRED to regenerate every paid address."""
+    r = random.Random(case['mseed'] ^ 0x5a7ed)
+    scripted = case['script'] != 'random'
+    if scripted:
+        gaps0, steps = SAVED_SCRIPTS[case['script']]
+        steps = [list(x) for x in steps]
+    else:
+        small = case['palette'] == 'small'
+        pick = lambda c: r.choice([1, 2, 3, 3, 4, 5, 8] if small else [[20, 21, 25, 32, 40, 45], [6, 7, 10, 25, 30]][c])  # noqa: E731
+        gaps0 = r.choice([None, [pick(0), pick(1)], [pick(0), pick(1)]])
+        steps = [None] * case['steps']
+    st = {'gm': list(gaps0 or DEFAULT_GAPS), 'stamp': 1000, 'required': True}
+    paid = [set(), set()]
+    lmin = list(st['gm'])
+    copies, ops = [], []
+
+    def suffices(g):
+        return g is not None and all(g[c] >= gap_needed(paid[c]) for c in (0, 1))
+
+    def draw():
+        k = r.choice(['set', 'set', 'pay', 'pay', 'pay', 'publish', 'apply', 'apply', 'restart'])
+        if k == 'apply' and not copies:
+            k = 'publish'
+        if k == 'publish' and ops and ops[-1]['op'] == 'publish':
+            k = 'pay'
+        if k == 'pay':
+            c = r.choice([0, 0, 1])
+            n = min(lmin[c], 90)
+            g = st['gm'][c] if st['gm'] else 1
+            cands = [j for j in (n - 1, max(0, n - g), r.randrange(n), r.randrange(n)) if j not in paid[c]]
+            if cands:
+                return ['pay', c, r.choice(cands)]
+            k = 'set'
+
+        def gaps():      # mostly wide enough for the payments so far, sometimes whatever the palette gives
+            g = [pick(0), pick(1)]
+            return g if r.random() < 0.3 else [max(g[c], gap_needed(paid[c])) for c in (0, 1)]
+        if k == 'set':
+            return ['set', gaps()]
+        if k == 'publish':
+            return ['publish', r.choice(['json', 'json', 'packed'])]
+        if k == 'apply':
+            narrow = [max(1, min(pick(c), gap_needed(paid[c]) - 1)) if paid[c] else pick(c) for c in (0, 1)]   # would lose a payment
+            return ['apply', r.randrange(len(copies)), r.choice([None, None, ['later', gaps()], ['later', gaps()], ['earlier', narrow]])]
+        return ['restart']
+
+    for step in steps:
+        step = step or draw()
+        op = {'op': step[0], 'narrow': False}
+        if step[0] == 'set':
+            st['stamp'] += 1000
+            st['gm'] = list(step[1])
+            st['required'] = suffices(st['gm'])
+            op.update(gaps=list(step[1]), why='account-set')
+        elif step[0] == 'pay':
+            c, j = step[1], step[2]
+            assert j < lmin[c] and j not in paid[c], f'script {case["script"]}: m/{c}/{j} is not a fresh generated address'
+            before = gap_needed(paid[c])
+            paid[c].add(j)
+            st['required'] = st['required'] and (gap_needed(paid[c]) <= before or suffices(st['gm']))
+            op.update(c=c, j=j, why='payment')
+        elif step[0] == 'publish':
+            copies.append({'stamp': st['stamp'], 'gaps': st['gm'] and list(st['gm']), 'how': step[1]})
+            op.update(copy=len(copies) - 1, how=step[1], why='export')
+        elif step[0] == 'apply':
+            copy = copies[step[1]]
+            op.update(copy=step[1], how=copy['how'], copy_stamp=copy['stamp'], device2=None)
+            theirs, their_stamp = copy['gaps'], copy['stamp']
+            if step[2]:
+                theirs = list(step[2][1])
+                their_stamp = st['stamp'] + 500 if step[2][0] == 'later' else st['stamp'] - 1
+                op['device2'] = {'when': step[2][0], 'gaps': theirs, 'stamp': their_stamp}
+            if their_stamp > st['stamp']:
+                st['stamp'], st['gm'] = their_stamp, list(theirs)
+                st['required'] = suffices(st['gm'])
+                op['why'] = 'sync-apply-of-newer-copy'
+            else:        # not newer: nothing of it may replace the local settings
+                op['why'] = 'sync-apply-of-older-copy' if their_stamp < st['stamp'] else 'sync-apply-of-equally-old-copy'
+                op['narrow'] = st['required'] and theirs is not None and not suffices(theirs)
+        elif step[0] == 'restart':
+            st['gm'], st['required'] = None, True
+            op.update(why='start-up', beyond_default=[gap_needed(paid[c]) > DEFAULT_GAPS[c] for c in (0, 1)])
+        else:
+            raise ValueError(step)
+        if st['gm'] is not None:
+            for c in (0, 1):
+                lmin[c] = max(lmin[c], (max(paid[c]) + 1 if paid[c] else 0) + st['gm'][c])
+        op.update(stamp=st['stamp'], required=st['required'], gm=st['gm'] and list(st['gm']), lmin=list(lmin),
+                  paid=[sorted(paid[0]), sorted(paid[1])])
+        ops.append(op)
+    return gaps0, ops
+
+
+def describe_saved(op):
+    if op['op'] == 'set':
+        return f'account_set receiving_gap={op["gaps"][0]} change_gap={op["gaps"][1]} (modified_on {op["stamp"]})'
+    if op['op'] == 'pay':
+        return f'payment to the generated address m/{op["c"]}/{op["j"]}'
+    if op['op'] == 'publish':
+        return f'wallet exported ({op["how"]}) as copy {op["copy"]} (modified_on {op["stamp"]})'
+    if op['op'] == 'apply':
+        d2 = op['device2']
+        return (f'sync apply of copy {op["copy"]} (modified_on {op["copy_stamp"]}) ' +
+                ('as exported' if not d2 else f'after a second device set the gaps {d2["gaps"]} with modified_on {d2["stamp"]}') +
+                {'older': ': older than', 'equally-old': ': as old as', 'newer': ': newer than'}[op['why'][14:-5]] + ' the local account')
+    return 'start-up (Account.save_max_gap as called by Ledger.start)'
+
+
+class OneLedgerManager:
+    """the one thing Wallet.merge() / Wallet.from_storage() ask of the wallet manager (harness side)"""
+    def __init__(self, ledger):
+        self.ledger = ledger
+
+    def get_or_create_ledger(self, ledger_id):
+        if ledger_id != self.ledger.get_id():
+            raise ValueError(f'account of ledger {ledger_id!r} in a wallet of {self.ledger.get_id()!r}')
+        return self.ledger
+
+
+async def saved_transcript(lb, net, mnemonic, generator, ops):
+    """the history on the REAL Wallet / Account / Ledger / Database; after every step the text Wallet.save() writes is loaded
+    by Wallet.from_storage() on a fresh database and run through the discovery loop of a restored wallet."""
+    import json
+    w = lb.w
+    L = lb.ledger_class(net)
+
+    def new_ledger():
+        return L({'db': w.Database(':memory:'), 'headers': w.Headers(':memory:')})
+
+    async def chain_records(account):
+        out = []
+        for am in (account.receiving, account.change):
+            recs = await am.get_address_records(order_by='n asc')
+            out.append([[x['pubkey'].n, x['address'], bytes(x['pubkey'].pubkey_bytes).hex(), x['used_times']] for x in recs])
+        return out
+
+    async def restore(text, paid):
+        ledger2 = new_ledger()
+        await ledger2.db.open()
+        try:
+            wallet2 = w.Wallet.from_storage(w.WalletStorage(default=json.loads(text)), OneLedgerManager(ledger2))
+            account2 = wallet2.accounts[0]
+            # what subscribe_account / update_history do: generate, histories of the new addresses arrive, generate again
+            pending, learned, settled = await account2.ensure_address_gap(), set(), True
+            while pending:
+                news = [a for a in pending if a in paid and a not in learned]
+                for address in news:
+                    await ledger2.db.set_address_history(address, 'a' * 64 + ':5:')
+                learned.update(news)
+                pending = await account2.ensure_address_gap()
+                if pending and not news:      # nothing was learned since the gap was filled, yet more addresses appear
+                    settled = False
+                    break
+            return {'accounts': len(wallet2.accounts), 'xpub': account2.public_key.extended_key_string(), 'settled': settled,
+                    'chains': await chain_records(account2)}
+        finally:
+            await ledger2.db.close()
+
+    ledger = new_ledger()
+    await ledger.db.open()
+    try:
+        wallet, manager = w.Wallet(), OneLedgerManager(ledger)
+        account = w.Account.from_dict(ledger, wallet, {'name': 'x', 'seed': mnemonic, 'address_generator': generator,
+                                                       'modified_on': 1000})
+        await account.ensure_address_gap()
+        t = {'id': account.id, 'xpub': account.public_key.extended_key_string(), 'steps': []}
+        copies, paid = [], set()
+        for op in ops:
+            step = {}
+            t['steps'].append(step)
+            if op['op'] == 'set':           # what jsonrpc_account_set does
+                account.receiving.gap, account.change.gap = op['gaps']
+                account.modified_on = op['stamp']
+                wallet.save()
+            elif op['op'] == 'pay':
+                step['generated'] = any(x[1] == op['address'] for x in (await chain_records(account))[op['c']])
+                if step['generated']:
+                    await ledger.db.set_address_history(op['address'], 'a' * 64 + ':1:')
+                    paid.add(op['address'])
+            elif op['op'] == 'publish':     # jsonrpc_wallet_export / the data sync_apply hands to the server
+                copies.append(wallet.to_json() if op['how'] == 'json' else wallet.pack(SYNC_PASSWORD).decode())
+                continue
+            elif op['op'] == 'apply':       # jsonrpc_sync_apply / jsonrpc_wallet_import
+                data, password = copies[op['copy']], None if op['how'] == 'json' else SYNC_PASSWORD
+                if op['device2']:
+                    d = json.loads(data) if password is None else w.Wallet.unpack(password, data)
+                    wallet_b = w.Wallet.from_storage(w.WalletStorage(default=d), OneLedgerManager(new_ledger()))
+                    b = wallet_b.accounts[0]
+                    b.receiving.gap, b.change.gap = op['device2']['gaps']
+                    b.modified_on = op['device2']['stamp']
+                    data = wallet_b.to_json() if password is None else wallet_b.pack(password).decode()
+                added, merged = wallet.merge(manager, password, data)
+                step['merge'] = [[x.id for x in added], [x.id for x in merged]]
+                wallet.save()
+            else:                           # Ledger.start: await asyncio.gather(*(a.save_max_gap() for a in self.accounts))
+                await asyncio.gather(*(a.save_max_gap() for a in ledger.accounts))
+            await account.ensure_address_gap()
+            text = wallet.save()
+            step['saved_generator'] = json.loads(text)['accounts'][0]['address_generator']
+            step['live'] = await chain_records(account)
+            step['restored'] = await restore(text, paid)
+        return t
+    finally:
+        await ledger.db.close()
+
+
+def check_saved_settings(rec, case):
+    lb = Lbry.get()
+    net = case['net']
+    _, vprv, vpub, _, _ = NETS[net]
+    mnemonic = make_mnemonic(lb, case['kind'], case['mseed'])
+    gaps0, ops = saved_plan(case)
+    generator = {} if gaps0 is None else {'name': 'deterministic-chain',
+                                          'receiving': {'gap': gaps0[0], 'maximum_uses_per_address': 1},
+                                          'change': {'gap': gaps0[1], 'maximum_uses_per_address': 1}}
+    root = ref_account(mnemonic)
+    history = [describe_saved(op) for op in ops]
+    rec.case('saved' + repr((mnemonic, gaps0, net, history)),
+             sample={'mnemonic': mnemonic, 'net': net, 'initial_gaps': gaps0 or DEFAULT_GAPS, 'history': history})
+    witness = {'mnemonic': mnemonic, 'net': net, 'initial_generator': generator, 'script': case['script']}
+    parents, rows = {}, {0: [], 1: []}
+
+    def ref_chain(c, count):
+        if c not in parents:
+            parents[c] = root.neuter().ckd_pub(c)
+        for n in range(len(rows[c]), count):
+            node = parents[c].ckd_pub(n)
+            rows[c].append([n, ref_address(net, node.pub_bytes), node.pub_bytes.hex()])
+        return rows[c][:count]
+
+    for op in ops:
+        if op['op'] == 'pay':
+            op['address'] = ref_chain(op['c'], op['j'] + 1)[op['j']][1]
+    try:
+        t = asyncio.run(saved_transcript(lb, net, mnemonic, generator, ops))
+    except Exception as e:  # noqa
+        import traceback
+        rec.violation(f'C06/K6/saved-wallet/raises/{type(e).__name__}@history-of-one-wallet',
+                      f'{type(e).__name__}: {e} running {history} on the account of {mnemonic!r}',
+                      dict(witness, history=history, traceback=traceback.format_exc()[-1500:]))
+        return
+    ident, xpub = ref_address(net, root.pub_bytes), root.xpub(vprv, vpub)
+    if t['id'] != ident or t['xpub'] != xpub:
+        rec.violation('C06/K6/saved-wallet/account-root', f'account of {mnemonic!r}: id {t["id"]} xpub {t["xpub"]} != reference '
+                      f'{ident} {xpub}', witness)
+        return
+    for i, (op, step) in enumerate(zip(ops, t['steps'])):
+        if op['op'] == 'publish':
+            continue
+        why = op['why']
+        w2 = dict(witness, step=i, operation=history[i], history=history[:i + 1], saved_address_generator=step['saved_generator'],
+                  paid_indices={'receiving': op['paid'][0], 'change': op['paid'][1]})
+        if op['op'] == 'pay' and not step['generated']:
+            rec.violation('C06/K6/saved-wallet/live-chain/count',
+                          f'step {i} ({history[i]}): the running account never generated m/{op["c"]}/{op["j"]} although the '
+                          f'explicit gap settings and the earlier payments put it inside the gap', w2)
+            return
+        if op['op'] == 'apply' and step['merge'] != [[], [ident]]:
+            rec.violation('C06/K6/saved-wallet/sync-copy-of-same-mnemonic-not-merged',
+                          f'step {i} ({history[i]}): Wallet.merge added accounts {step["merge"][0]} and merged {step["merge"][1]}; '
+                          f'the copy holds the one account {ident} of the same mnemonic', dict(w2, merge=step['merge']))
+            return
+        rec.hit('K6.saved.restore_checked')
+        rec.hit('K6.saved.after.' + why)
+        if step['restored']['accounts'] != 1 or step['restored']['xpub'] != xpub:
+            rec.violation('C06/K6/saved-wallet/restored-account-root',
+                          f'step {i} ({history[i]}): the saved wallet loads as {step["restored"]["accounts"]} account(s), first xpub '
+                          f'{step["restored"]["xpub"]}; reference {xpub}', w2)
+            return
+        if not step['restored']['settled']:
+            rec.violation('C06/K6/saved-wallet/restored-discovery-does-not-settle',
+                          f'step {i} ({history[i]}): on the restored wallet ensure_address_gap returned new addresses again although no '
+                          f'payment was learned since it last filled the gap', w2)
+            return
+        for where, chains in (('live', step['live']), ('restored', step['restored']['chains'])):
+            for cname, c in (('receiving', 0), ('change', 1)):
+                got = chains[c]
+                want = ref_chain(c, len(got))
+                if [x[:3] for x in got] != want:
+                    rec.violation(f'C06/K6/saved-wallet/{where}-{cname}-chain/address',
+                                  f'step {i} ({history[i]}): the {where} {cname} chain of {mnemonic!r} (n={[x[0] for x in got][:4]}.., '
+                                  f'{len(got)} records) is not the hole-free reference chain m/{c}/0..{len(got) - 1}',
+                                  dict(w2, chain=c, lbry=[x[:3] for x in got], reference=want))
+                    return
+                want_used = [j for j in op['paid'][c] if j < len(got)]
+                if [x[0] for x in got if x[3] > 0] != want_used:
+                    rec.violation(f'C06/K6/saved-wallet/{where}-{cname}-chain/record-fields',
+                                  f'step {i} ({history[i]}): used {where} {cname} addresses n={[x[0] for x in got if x[3] > 0]}, '
+                                  f'paid to n={want_used}', dict(w2, chain=c))
+                    return
+                if where == 'live' and len(got) < op['lmin'][c]:
+                    rec.violation(f'C06/K6/saved-wallet/live-{cname}-chain/count',
+                                  f'step {i} ({history[i]}): the running account has {len(got)} {cname} addresses; the explicit gap '
+                                  f'settings and the payments to n={op["paid"][c]} ask for at least {op["lmin"][c]}',
+                                  dict(w2, chain=c, records=len(got), at_least=op['lmin'][c]))
+                    return
+        lengths = [len(x) for x in step['restored']['chains']]
+        missing = [[c, j] for c in (0, 1) for j in op['paid'][c] if j >= lengths[c]]
+        if not op['required']:
+            rec.log('K6.saved.gaps_lowered_by_choice_' + ('still_regenerates' if not missing else 'does_not_regenerate'))
+            continue
+        if op['narrow']:
+            rec.hit('K6.saved.older_copy_too_narrow_checked')
+        for c, cname in enumerate(('receiving', 'change')):
+            if op['op'] == 'restart' and op['beyond_default'][c]:
+                rec.hit('K6.saved.startup_beyond_default_gap.' + cname)
+        if op['paid'][0] or op['paid'][1]:
+            rec.hit('K6.saved.funded_regenerated_checked')
+        if missing:
+            c, j = missing[0]
+            cname = ('receiving', 'change')[c]
+            rec.violation(f'C06/K6/saved-wallet/paid-address-not-regenerated/after-{why}/{cname}',
+                          f'step {i} ({history[i]}): the wallet saved afterwards holds the settings {step["saved_generator"]}; loaded on '
+                          f'a fresh database the same mnemonic {mnemonic!r} regenerates m/{c}/0..{lengths[c] - 1} only, the paid '
+                          f'address m/{c}/{j} ({ref_chain(c, j + 1)[j][1]}) is missing (paid {cname} n={op["paid"][c]})',
+                          dict(w2, missing=missing, regenerated_lengths={'receiving': lengths[0], 'change': lengths[1]}))
+            return
+    rec.hit('K6.saved.history_checked')
+
+
 # ------------------------------------------------------------------------------ K6: passphrase spellings
 # composed (NFC) spellings; every piece changes under at least one of NFD / NFKC / NFKD
 PW_PIECES = ['caf\u00e9', 'cr\u00e8me', 'na\u00efve', 'se\u00f1or', '\u00fcber', '\u00e5ngstr\u00f6m', 'vi\u1ec7t', '\u01d6ber',
@@ -1377,6 +1759,8 @@ def execute(rec, case):
         check_account(rec, case)
     elif fam == 'shared':
         check_shared_ledger(rec, case)
+    elif fam == 'saved':
+        check_saved_settings(rec, case)
     elif fam == 'fixture_account':
         check_account(rec, {'fam': 'acct', 'mseed': 0, 'gaps': [20, 6], 'kind': 'words', 'net': 'main', 'use': 0},
                       mnemonic=FIXTURE_MNEMONIC)
